@@ -131,6 +131,7 @@ type Source struct {
 	hbRDB      int
 	stamp      func() int64
 	onPsync    func(PsyncEvent)
+	afterFull  []byte
 	refuseLeft int
 	refuseLine string
 
@@ -335,6 +336,15 @@ func (src *Source) RefusePsyncs(n int, line string) {
 	src.mu.Unlock()
 }
 
+// QueueAfterFullresync: b becomes stream (bytes master_repl_offset+1 …) at the very moment the next
+// +FULLRESYNC is decided, i.e. it is already waiting when the snapshot payload has been written and
+// follows it on the wire without any pause (a master under write load).  One-shot.
+func (src *Source) QueueAfterFullresync(b []byte) {
+	src.mu.Lock()
+	src.afterFull = append([]byte{}, b...)
+	src.mu.Unlock()
+}
+
 // DropReplicas closes every attached replica connection now.
 func (src *Source) DropReplicas() {
 	src.mu.Lock()
@@ -521,6 +531,13 @@ func cmdPsync(s *Server, c *conn, req *Req) (Reply, action) {
 		}
 		ev.RDBLen = len(sess.rdb)
 		sess.next = src.mro + 1
+		if len(src.afterFull) > 0 {
+			// a busy master: writes executed while the snapshot is produced are in the replica's
+			// output buffer right behind the payload
+			src.hist = append(src.hist, src.afterFull...)
+			src.mro += int64(len(src.afterFull))
+			src.afterFull = nil
+		}
 	}
 	ev.StartAt = sess.next
 	sess.line = ev.Reply
